@@ -308,9 +308,14 @@ def check_lengths(ctx):
             ctx.ob('R3', fi, n, True, 'accumulator allocated with the same length')
     ys = [k.value for n in ast.walk(fi.node) if isinstance(n, ast.Call) and norm_text(n.func).endswith('RDFData') for k in n.keywords if k.arg == 'y']
     xs = [k.value for n in ast.walk(fi.node) if isinstance(n, ast.Call) and norm_text(n.func).endswith('RDFData') for k in n.keywords if k.arg == 'x']
-    if not ys:
+    def _syn(y):
+        t_ = norm_text(y).replace(' ', '')
+        return True if (t_ == 'values[:-1]' and xs and norm_text(xs[0]) == 'bins') else (False if t_ in ('values', 'values[1:]', 'values[:]') else None)
+    if not ys or any(_syn(y) is None for y in ys):
+        # not in the spelling known by heart: decide on the values handed to RDFData
         for node_, st_, msg_ in _xy_on_values(ctx, fi):
             ctx.ob('R3', fi, node_, st_, msg_)
+        ys = []
     for y in ys:
         t = norm_text(y).replace(' ', '')
         ok = t == 'values[:-1]' and xs and norm_text(xs[0]) == 'bins'
